@@ -70,10 +70,15 @@ def body(c):
     m = vlib.run_tlc("gql/MC_LimitsWork.tla", "gql/MC_LimitsWork.cfg", workers=1, timeout=900, keep_lines=200)
     if m.invariant_violated:
         raise vlib.ToolError("design-level failure in Limits.tla (memoised ideal / cost table): " + str(m.invariant_violated))
-    c.add_tlc("M ideal work <= PolyBound, cost table = direct recursion (n<=14)", m)
+    c.add_tlc("M ideal work <= PolyBound, table evaluation = direct recursion with and without limits (n<=14)", m)
     table = [dict(zip(["family", "n", "size", "bound", "ideal_max", "as_coded_max"], t[1:7])) for t in m.tagged("WORK")]
     if len(table) < 4 * 14:
         raise vlib.ToolError("mode M printed %d WORK rows" % len(table))
+    rf = vlib.run_tlc("gql/MC_LimitsWork.tla", "gql/MC_LimitsWorkRefused.cfg", workers=1, timeout=900, keep_lines=200)
+    if rf.invariant_violated:
+        raise vlib.ToolError("design-level failure in Limits.tla: a fan-out chain deeper than limit_recursive_depth is not refused cheaply by the "
+                             "as-coded walkers (RefusedCheap): " + str(rf.invariant_violated))
+    c.add_tlc("M refused requests are cheap: as-coded work of chains deeper than limits 8/12/16/default <= PolyBound, outside DevNoMemo's trigger (n<=40)", rf)
     d = vlib.run_tlc("gql/MC_LimitsWork.tla", "gql/MC_LimitsWorkDevNoMemo.cfg", workers=1, timeout=900, keep_lines=200, expect_violation=True)
     cex = d.tagged("COUNTEREXAMPLE")
     if d.invariant_violated != "CodedPoly" or not cex:
@@ -87,14 +92,39 @@ def body(c):
     max_n, max_fan = (24, 15) if c.quick else (40, 19)
     cfg = c.path("Gen_Work.cfg")
     with open(cfg, "w") as f:
-        f.write("CONSTANT MaxN = %d\nCONSTANT EqN = 0\nCONSTANT MaxFan = %d\nINIT Init\nNEXT Next\nINVARIANT EmitDocs\n" % (max_n, max_fan))
+        f.write("CONSTANT MaxN = 40\nCONSTANT EqN = 0\nCONSTANT MaxFan = %d\nINIT Init\nNEXT Next\nINVARIANT EmitDocs\n" % max_fan)
     g = vlib.run_tlc("gql/MC_LimitsWork.tla", cfg, workers=1, timeout=900, keep_lines=50)
-    c.add_tlc("G family documents (n<=%d, fan-out n<=%d)" % (max_n, max_fan), g)
+    c.add_tlc("G family documents (n<=%d, fan-out n<=%d; chains up to n=40 for the refused requests)" % (max_n, max_fan), g)
+    fam_docs = {}
+    for t in g.tagged("REPLAY"):
+        fam_docs[(t[1], t[2])] = json.loads(t[3])
+    PASS = {"recursive": 64, "directives": 1000}          # limits above every generated nesting / directive count
     cases = []
-    for t in sorted(g.tagged("REPLAY"), key=lambda t: (t[1], t[2])):
-        cases.append({"id": 0, "family": t[1], "n": t[2], "doc": json.loads(t[3])})
+    for (fname, n) in sorted(fam_docs):
+        if fname in ("fanout", "wide", "deepinline", "manyops") and n <= max_n and (fname != "fanout" or n <= max_fan):
+            cases.append({"id": 0, "family": fname, "n": n, "cfg": PASS, "doc": fam_docs[(fname, n)]})
     if len({x["family"] for x in cases}) != 4:
         raise vlib.ToolError("family generation incomplete: %s" % sorted({x["family"] for x in cases}))
+    # requests that a limit refuses: chains deeper than limit_recursive_depth (the walker must stop at the first violation, so
+    # the work is small and nothing is excused), the request exactly at the limit (passes, full walk), and the directive limit
+    refused = []
+    offs = (1, 2, 5, 8) if c.quick else (1, 2, 3, 4, 5, 6, 8)
+    for lim in (8, 12, 16, -1):                            # -1: the default limit (32); these come last (see harness watchdog)
+        eff = 32 if lim < 0 else lim
+        for fname in ("fanout", "fanoutops", "deepinline"):
+            ns = [eff + o for o in offs if eff + o <= 40]
+            if lim >= 0 and fname != "fanoutops":
+                ns = [eff] + ns                            # exactly at the limit: accepted by this walker
+            for n in ns:
+                if (fname, n) not in fam_docs:
+                    raise vlib.ToolError("generator did not print %s n=%d" % (fname, n))
+                refused.append({"id": 0, "family": fname + "@rec%s" % ("default" if lim < 0 else lim), "n": n,
+                                "cfg": {"recursive": lim, "directives": 1000}, "doc": fam_docs[(fname, n)], "above": n > eff})
+    for fname in ("dirfirst", "dirlast"):
+        for n in ((3, 7, 11) if c.quick else range(1, 12)):
+            for dl in (1, 2):
+                refused.append({"id": 0, "family": fname + "@dir%d" % dl, "n": n, "cfg": {"recursive": 64, "directives": dl},
+                                "doc": fam_docs[(fname, n)], "above": dl == 1})
     ts = json.load(open(SCHEMA))
     rng = random.Random(c.seed)
     dg = gqlgen.DocGen(ts, random.Random(c.seed + 5), max_depth=4, max_items=4, p_dir=0.0, p_frag=0.35, p_alias=0.2)
@@ -115,13 +145,18 @@ def body(c):
                 dup(doc["ops"][0]["sels"]) or any(dup(f["sels"]) for f in doc["frags"])
         if gqlgen.conflicting_keys(ts, doc):
             continue
-        cases.append({"id": 0, "family": "random", "n": 0, "doc": doc})
+        cases.append({"id": 0, "family": "random", "n": 0, "cfg": PASS, "doc": doc})
         made += 1
     ndag = 150 if c.quick else 1500
     for _ in range(ndag):
-        cases.append({"id": 0, "family": "randdag", "n": 0, "doc": rand_dag(rng, rng.randint(2, 13 if c.quick else 14))})
+        dag = rand_dag(rng, rng.randint(2, 13 if c.quick else 14))
+        cases.append({"id": 0, "family": "randdag", "n": 0, "cfg": PASS, "doc": dag})
+        if rng.random() < 0.4:                              # the same DAG under a small recursion limit: refused early or walked in full
+            cases.append({"id": 0, "family": "randdag@rec", "n": 0, "cfg": {"recursive": rng.choice([2, 4, 6, 9]), "directives": 1000}, "doc": dag})
+    cases += refused                                        # last: a run-away walk ends the harness run (watchdog) after everything else was recorded
     for i, x in enumerate(cases):
         x["id"] = i + 1
+        x.setdefault("above", False)
     vlib.write_ndjson(c.path("cases.ndjson"), cases)
 
     # ---- H ----------------------------------------------------------------------------------------------------
@@ -130,8 +165,11 @@ def body(c):
     if p.returncode != 0:
         raise vlib.ToolError("c11 harness failed: " + (p.stderr[-2000:] or p.stdout[-2000:]))
     obs = vlib.read_ndjson(c.path("trace.ndjson"))
-    slim = [{"id": o["id"], "family": o["family"], "n": o["n"], "doc": o["doc"],
-             "obs": {k: o["obs"][k] for k in ("counters", "wallUs", "refused", "problem")}} for o in obs]
+    aborted = bool(obs) and obs[-1]["obs"].get("aborted", False)
+    if len(obs) != len(cases) and not aborted:
+        raise vlib.ToolError("c11 harness recorded %d of %d requests" % (len(obs), len(cases)))
+    slim = [{"id": o["id"], "family": o["family"], "n": o["n"], "cfg": o["cfg"], "doc": o["doc"],
+             "obs": {k: o["obs"][k] for k in ("counters", "wallUs", "refused", "aborted", "problem")}} for o in obs]
     vlib.write_ndjson(c.path("judge.ndjson"), slim)
 
     # ---- V ----------------------------------------------------------------------------------------------------
@@ -142,11 +180,12 @@ def body(c):
         raise vlib.ToolError("V produced %d verdicts for %d requests" % (len(ver), len(obs)))
     worst = {}
     above = 0
+    nrefused = 0
     for o in obs:
         t = json.loads(ver[o["id"]][2])
         verdict, size, bound, coded, match, ideal = t["verdict"], t["size"], t["bound"], t["coded"], t["match"], t["ideal"]
         cnt = o["obs"]["counters"]
-        c.count_case({"text": o["text"]}, nontrivial=True)
+        c.count_case({"text": o["text"], "cfg": o["cfg"]}, nontrivial=True)
         rec = {"family": o["family"], "n": o["n"], "size": size, "bytes": o["bytes"], "poly_bound": bound, "counters": dict(zip(COUNTERS, cnt)),
                "as_coded": coded, "ideal": ideal, "wall_us": o["obs"]["wallUs"], "refused": o["obs"]["refused"], "text": o["text"][:400]}
         c.verdict(verdict, rec, "checking work %d exceeds PolyBound %d (size %d) and is not explained by DevNoMemo" % (max(cnt), bound, size))
@@ -154,9 +193,21 @@ def body(c):
             c.drift("request %d (%s n=%s): counters %s but Visits_asCoded %s" % (o["id"], o["family"], o["n"], cnt, coded))
         if verdict != "ok":
             above += 1
+        if o["above"]:
+            # a request that a limit refuses: the reference work is small, so nothing may be excused here
+            nrefused += 1
+            if verdict == "ok" and (not o["obs"]["refused"] or cnt[0] != 0):
+                raise vlib.ToolError("request %d (%s n=%s) was meant to be refused by its limit before validation: %s" % (o["id"], o["family"], o["n"], o["obs"]))
+            if verdict.startswith("known"):
+                c.violation(rec, "a request refused by its limit must not need an excuse (%s)" % verdict)
         w = worst.get(o["family"])
         if w is None or max(cnt) > max(w["counters"].values()):
             worst[o["family"]] = {k: rec[k] for k in ("n", "size", "bytes", "poly_bound", "counters", "wall_us", "refused")}
+    if aborted:
+        c.notes.append("the harness watchdog ended the run at request %d: checking work went beyond 2^26" % obs[-1]["id"])
+    if nrefused == 0 and not aborted:
+        raise vlib.ToolError("vacuous: no request above a limit was run")
+    c.cov["requests_refused_by_a_limit"] = nrefused
     if above == 0:
         raise vlib.ToolError("vacuous: no request exceeded PolyBound although the fan-out chains were run (DevNoMemo expected)")
     if not any(o["family"] == "random" and max(o["obs"]["counters"]) > 0 for o in obs):
@@ -166,7 +217,8 @@ def body(c):
     c.cov["largest_work_by_family"] = worst
     c.cov["requests_above_bound"] = above
     c.cov["rule"] = ("families from TLC (MC_LimitsWork!Family): fan-out chains n<=%d (as-coded work < 2^20), wide overlapping selections, deep inline nesting and "
-                     "many operations n<=%d; %d seeded random documents over the static family (4-30 nodes, nested fragments, fragments spread twice) and %d seeded "
+                     "many operations n<=%d; the chains (also behind three operations, and deep inline nesting) sized at and above limit_recursive_depth 8 / 12 / 16 / default "
+                     "(n up to 40: refused after limit+2 walker calls, judged without excuse) and before / behind a field over limit_directives; %d seeded random documents over the static family (4-30 nodes, nested fragments, fragments spread twice) and %d seeded "
                      "random fragment DAGs; each executed once with limits configured, counters read after the request; distinct by document text; every request "
                      "exercises all five counters' walkers" % (max_fan, max_n, nrand, ndag))
     big = [o for o in obs if o["family"] == "fanout"][-1]
